@@ -178,6 +178,9 @@ class Secrets:
             return self.why(fi, e.value, depth + 1) or (None if isinstance(e.slice, ast.Slice) else self.why(fi, e.slice, depth + 1))
         if isinstance(e, ast.Call):
             nm = callee_name(e)
+            if any(k.arg == 'capture_locals' and not (isinstance(k.value, ast.Constant) and not k.value.value) for k in e.keywords):
+                # a traceback rendered with the locals of every frame shows repr() of whatever those frames held: keyrings, key seeds, PSKs
+                return 'traceback with the local variables of every frame (%s)' % src(e)[:50]
             if nm == 'prf' and any(isinstance(a, ast.Constant) and a.value == b'Key Pad for IKEv2' for a in e.args):
                 # prf(PSK, "Key Pad for IKEv2") stands in for the PSK in every AUTH computation: as secret as the PSK, whatever
                 # the variable holding it is called (and also when no variable holds it)
